@@ -79,6 +79,23 @@ func checkC17(c *Ctx) {
 	var arms []arm
 	var defaultFn *ssa.Function
 	var handleCall ssa.Instruction
+	boundTarget := func(v ssa.Value) *ssa.Function {
+		g := funcValue(v)
+		if g == nil {
+			return nil
+		}
+		if g.Synthetic != "" {
+			var t *ssa.Function
+			eachInstr(g, func(_ *ssa.BasicBlock, _ int, x ssa.Instruction) {
+				if c2 := callOf(x); c2 != nil && calleeFn(c2) != nil {
+					t = calleeFn(c2)
+				}
+			})
+			return t
+		}
+		return g
+	}
+	// the dispatch: the dynamic call in the function that reads frames
 	eachInstr(hc, func(_ *ssa.BasicBlock, _ int, in ssa.Instruction) {
 		cc := callOf(in)
 		if cc == nil || cc.IsInvoke() || calleeFn(cc) != nil {
@@ -87,50 +104,47 @@ func checkC17(c *Ctx) {
 		if _, isB := cc.Value.(*ssa.Builtin); isB {
 			return
 		}
-		ph, ok := cc.Value.(*ssa.Phi)
-		if !ok {
-			return
+		if sig, ok := cc.Value.Type().Underlying().(*types.Signature); ok && sig.Params().Len() == 2 {
+			handleCall = in
 		}
-		handleCall = in
-		boundTarget := func(v ssa.Value) *ssa.Function {
-			g := funcValue(v)
-			if g == nil {
-				return nil
-			}
-			if g.Synthetic != "" {
-				var t *ssa.Function
-				eachInstr(g, func(_ *ssa.BasicBlock, _ int, x ssa.Instruction) {
-					if c2 := callOf(x); c2 != nil && calleeFn(c2) != nil {
-						t = calleeFn(c2)
-					}
-				})
-				return t
-			}
-			return g
+	})
+	// the request switch: wherever in the package a message-type value is compared with constants to choose a handler
+	for _, sf := range p.FuncsIn(hrPkg) {
+		if p.isTestFn(sf) {
+			continue
 		}
-		// map each phi edge to the switch constant guarding its predecessor
-		for k, pred := range ph.Block().Preds {
-			fn := boundTarget(ph.Edges[k])
+		type cmpInfo struct {
+			val int64
+			T   *ssa.BasicBlock
+		}
+		var cmps []cmpInfo
+		eachInstr(sf, func(_ *ssa.BasicBlock, _ int, in ssa.Instruction) {
+			iff, ok := in.(*ssa.If)
+			if !ok {
+				return
+			}
+			bo, ok := iff.Cond.(*ssa.BinOp)
+			if !ok || bo.Op != token.EQL {
+				return
+			}
+			cv, isC := constInt(bo.Y)
+			if !isC || types.TypeString(bo.X.Type(), nil) != modPath+"/"+hrPkg+".messageType" {
+				return
+			}
+			cmps = append(cmps, cmpInfo{cv, iff.Block().Succs[0]})
+		})
+		if len(cmps) < 2 {
+			continue
+		}
+		assign := func(v ssa.Value, at *ssa.BasicBlock) {
+			fn := boundTarget(v)
+			if fn == nil {
+				return
+			}
 			matched := false
-			for _, d := range hc.Blocks {
-				iff, ok := d.Instrs[len(d.Instrs)-1].(*ssa.If)
-				if !ok {
-					continue
-				}
-				bo, ok := iff.Cond.(*ssa.BinOp)
-				if !ok || bo.Op != token.EQL {
-					continue
-				}
-				cv, isC := constInt(bo.Y)
-				if !isC {
-					continue
-				}
-				if f, _ := loadedField(bo.X); f == nil || f.Name() != "Type" {
-					continue
-				}
-				T := d.Succs[0]
-				if pred == T || (T.Dominates(pred) && len(T.Preds) == 1) {
-					arms = append(arms, arm{cv, fn})
+			for _, ci := range cmps {
+				if at == ci.T || (ci.T.Dominates(at) && len(ci.T.Preds) == 1) {
+					arms = append(arms, arm{ci.val, fn})
 					matched = true
 				}
 			}
@@ -138,7 +152,26 @@ func checkC17(c *Ctx) {
 				defaultFn = fn
 			}
 		}
-	})
+		eachInstr(sf, func(b *ssa.BasicBlock, _ int, in ssa.Instruction) {
+			switch x := in.(type) {
+			case *ssa.Phi:
+				if _, isSig := x.Type().Underlying().(*types.Signature); !isSig {
+					return
+				}
+				for k, pred := range b.Preds {
+					assign(x.Edges[k], pred)
+				}
+			case *ssa.Return:
+				for _, r := range x.Results {
+					if _, isSig := r.Type().Underlying().(*types.Signature); isSig {
+						if _, isPhi := r.(*ssa.Phi); !isPhi {
+							assign(r, b)
+						}
+					}
+				}
+			}
+		})
+	}
 	if handleCall == nil || len(arms) == 0 {
 		c.Undecided("R1", "request switch", hc.Pos(), "cannot recover the request switch (handler chosen by a switch on the message type and called through a variable)")
 	}
@@ -160,13 +193,20 @@ func checkC17(c *Ctx) {
 			if g == nil {
 				return
 			}
-			eachInstr(g, func(_ *ssa.BasicBlock, _ int, x ssa.Instruction) {
-				if c2, ok := x.(*ssa.Call); ok && isCallToFn(c2, newMsg) {
-					if cv, isC := constInt(c2.Call.Args[0]); isC {
-						val, at, found = cv, in, true
+			for _, gg := range append([]*ssa.Function{g}, staticCalleesDeep(g, 2)...) {
+				eachInstr(gg, func(_ *ssa.BasicBlock, _ int, x ssa.Instruction) {
+					c2, ok := x.(*ssa.Call)
+					if !ok {
+						return
 					}
-				}
-			})
+					for _, a := range c2.Call.Args {
+						if cst, isC := a.(*ssa.Const); isC && types.TypeString(cst.Type(), nil) == modPath+"/"+hrPkg+".messageType" {
+							cv, _ := constInt(cst)
+							val, at, found = cv, in, true
+						}
+					}
+				})
+			}
 		})
 		return val, at, found
 	}
